@@ -493,20 +493,45 @@ func (lsm *LSM) Get(key []byte) (*kv.Entry, error) {
 		return entry.Value != nil || entry.Meta != 0 || entry.ExpiresAt != 0
 	}
 
+	// A newer source does not always hold a newer version: versions can arrive
+	// out of order (Percolator prewrites, value-log GC re-inserting old
+	// versions), so keep the highest version <= the requested one across all
+	// sources. On equal versions the newer source wins. An exact match cannot be
+	// beaten, so the common cases (non-transactional reads) stop at the first hit.
+	want := kv.ParseTs(key)
+	var best *kv.Entry
 	for _, mt := range tables {
 		if mt == nil {
 			continue
 		}
-		entry, err := mt.Get(key)
-		if isMemHit(entry) {
-			return entry, err
+		entry, _ := mt.Get(key)
+		if isMemHit(entry) && (best == nil || entry.Version > best.Version) {
+			if best != nil {
+				best.DecrRef()
+			}
+			best = entry
+			if best.Version == want {
+				return best, nil
+			}
+			continue
 		}
 		if entry != nil {
 			entry.DecrRef()
 		}
 	}
 	// query from the level manager
-	return lsm.levels.Get(key)
+	lvl, err := lsm.levels.Get(key)
+	if best == nil {
+		return lvl, err
+	}
+	if lvl != nil && lvl.Version > best.Version {
+		best.DecrRef()
+		return lvl, nil
+	}
+	if lvl != nil {
+		lvl.DecrRef()
+	}
+	return best, nil
 }
 
 // Prefetch warms cache layers for the key by issuing targeted block loads.
